@@ -14,10 +14,10 @@ META = dict(
     property="C54",
     level="exploration",
     technique="generated FTP command sessions against the real FTP protocol + FTPShell/FTPAnonymousShell on a scratch root with prefix-sharing siblings, data connections through the real DTP over an in-memory transport, every filesystem call audited with sys.addaudithook; complete small scope of (prefix, command, path)",
-    level_text="Each case is a whole control-connection session (login as a user -> FTPShell, or anonymous -> FTPAnonymousShell; then CWD/CDUP/PWD/MKD/RMD/DELE/RNFR/RNTO/SIZE/MDTM/LIST/NLST/RETR/STOR/APPE/raw lines with hostile path arguments). While the session runs, every open/listdir/scandir/mkdir/rmdir/remove/rename/link/symlink/truncate/chmod event is recorded and each path must resolve inside realpath(root); afterwards everything in the scratch tree outside root (T/secret, T/root.secret, T/rootsib/...) must be byte-identical, and no control or data output may contain the content of an outside file. Quick tier enumerates every (prefix in {none, CWD sub, CWD sub/deep}) x (command) x (path of <= 2 segments over 5 atoms, relative and absolute, plus classic traversal spellings); longer sessions are sampled.",
+    level_text="Each case is a whole control-connection session (login as a user -> FTPShell, or anonymous -> FTPAnonymousShell; then CWD/CDUP/PWD/MKD/RMD/DELE/RNFR/RNTO/SIZE/MDTM/LIST/NLST/RETR/STOR/APPE/raw lines with hostile path arguments). While the session runs, every open/listdir/scandir/mkdir/rmdir/remove/rename/link/symlink/truncate/chmod event is recorded and each path must resolve inside realpath(root); afterwards everything in the scratch tree outside root (T/secret, T/root.secret, T/rootsib/...) must be byte-identical, and no control or data output may contain the content of an outside file. Quick tier enumerates every (prefix in {none, CWD sub, CWD sub/deep}) x (command) x (path of <= 2 segments over 5 atoms, relative and absolute, plus classic traversal spellings), and for both shells every command x every one-character disguise of '..' (NUL, 0x01, TAB, 0x1f, DEL, space inserted at each position) x climb targets (prefix-sharing sibling, its files, the parent's files), from / and from /sub; longer sessions are sampled.",
     level_note="Only Python-level audit events are seen (stat-type probes and libc calls such as getpwuid are not); DESIGN deliberately leaves stat probes unasserted. The data connection is the real ftp.DTP over an in-memory transport installed by the harness before each data command (PASV/PORT socket set-up is not exercised). reactor.callLater is replaced by a task.Clock for the session. Symbolic links are not created. 'internal server error' replies are counted, not asserted.",
     design_ref="§5 C54",
-    rule="case = (shell kind, [(command, path argument)...]); path arguments are concatenations of atoms (.., ., empty, names inside root, sibling/secret names, NUL, backslash, globs, latin-1, absolute scratch paths) joined with '/'. non-trivial = authenticated session with at least one filesystem command whose argument contains '..', is absolute, or names a sibling/secret/NUL/backslash; distinct by the whole session.",
+    rule="case = (shell kind, [(command, path argument)...]); path arguments are concatenations of atoms (.., ., empty, names inside root, sibling/secret names, NUL, backslash, globs, latin-1, absolute scratch paths, and '.'/'..' with control characters, DEL, blanks or NUL inserted before, inside or after them) joined with '/'. non-trivial = authenticated session with at least one filesystem command whose argument contains '..', is absolute, or names a sibling/secret/NUL/backslash; distinct by the whole session.",
 )
 
 OUTSIDE = {
@@ -119,13 +119,22 @@ def _write_files(T, files):
             f.write(data)
 
 
+# The tree sits 8 directories deep inside its scratch directory, so that even a (planted) bug that lets a
+# session climb several levels stays inside the scratch directory, where it is both seen and cleaned up.
+JAIL = os.path.join(*["j"] * 8)
+
+
+def _top(T):
+    return T[:-len(JAIL) - 1]
+
+
 def _snapshot_outside(T):
     snap = {}
-    for dirpath, dirnames, filenames in os.walk(T):
+    for dirpath, dirnames, filenames in os.walk(_top(T)):
         if dirpath == T and "root" in dirnames:
             dirnames.remove("root")
         dirnames.sort()
-        rel = os.path.relpath(dirpath, T)
+        rel = os.path.relpath(dirpath, _top(T))
         snap[rel] = "dir"
         for fn in sorted(filenames):
             with open(os.path.join(dirpath, fn), "rb") as f:
@@ -135,9 +144,10 @@ def _snapshot_outside(T):
 
 def _rebuild(T, everything=False):
     if everything:
-        for n in os.listdir(T):
-            p = os.path.join(T, n)
+        for n in os.listdir(_top(T)):
+            p = os.path.join(_top(T), n)
             shutil.rmtree(p) if os.path.isdir(p) and not os.path.islink(p) else os.remove(p)
+        os.makedirs(T)
         _write_files(T, OUTSIDE)
     else:
         shutil.rmtree(os.path.join(T, "root"), ignore_errors=True)
@@ -150,7 +160,8 @@ def _tree():
     if pid in _TREE:
         yield _TREE[pid]
         return
-    with harness.scratch_dir("C54") as T:
+    with harness.scratch_dir("C54") as top:
+        T = os.path.join(top, JAIL)
         _rebuild(T, everything=True)
         _TREE[pid] = T
         try:
@@ -164,7 +175,8 @@ _PRISTINE = {}
 
 def _pristine():
     if not _PRISTINE:
-        with harness.scratch_dir("C54") as T:
+        with harness.scratch_dir("C54") as top:
+            T = os.path.join(top, JAIL)
             _rebuild(T, everything=True)
             _PRISTINE.update(_snapshot_outside(T))
     return _PRISTINE
@@ -286,8 +298,24 @@ def run_session(case, T):
     return list(log), b"".join(control), b"".join(data)
 
 
+def _ignorable(ch):
+    """characters a sloppy sanitizer might drop: C0/C1 controls, DEL, blanks, soft hyphen"""
+    o = ord(ch)
+    return o <= 0x20 or 0x7f <= o <= 0xa0 or o == 0xad
+
+
+def _disguised_dots(arg):
+    """segments that are not '.'/'..' as sent but collapse to one of them when ignorable characters are dropped"""
+    out = []
+    for seg in (arg or "").split("/"):
+        core = "".join(c for c in seg if not _ignorable(c))
+        if seg not in (".", "..") and core in (".", ".."):
+            out.append((seg, core))
+    return out
+
+
 def _hostile(arg):
-    return arg is not None and (".." in arg or arg.startswith("/") or any(
+    return arg is not None and (".." in arg or arg.startswith("/") or bool(_disguised_dots(arg)) or any(
         t in arg for t in ("rootsib", "secret", "\x00", "\\", "{T}", "{ROOT}")))
 
 
@@ -302,7 +330,7 @@ def run_case(ctx, case):
                 ev, p = bad[0]
                 rp = os.path.abspath(p)
                 kind = ("sibling-sharing-prefix" if rp.startswith(root) else
-                        "scratch-tree" if _inside(rp, T) else "elsewhere")
+                        "scratch-tree" if _inside(rp, _top(T)) else "elsewhere")
                 ctx.violation(f"audit-{ev}-outside-root-{kind}", case, detail + f"{ev}({p!r}); root is {root!r}")
             snap = _snapshot_outside(T)
             if snap != _pristine():
@@ -337,6 +365,17 @@ def run_case(ctx, case):
         ctx.count("session listed a directory")
     if data.strip():
         ctx.count("session transferred data")
+    dis = [d for _c, a in case["ops"] for d in _disguised_dots(a)]
+    if dis:
+        ctx.count("class: disguised dot segment (control/blank characters in or next to '.'/'..')")
+        if any(core == ".." for _s, core in dis):
+            ctx.count("class: disguised '..'")
+            if any(_disguised_dots(a) and "rootsib" in a for _c, a in case["ops"] if a):
+                ctx.count("class: disguised '..' + sibling sharing the root's name prefix")
+            if any("\x00" in seg for seg, _c in dis):
+                ctx.count("class: disguised '..' using NUL")
+            if any("\x00" not in seg for seg, _c in dis):
+                ctx.count("class: disguised '..' using another control/blank character")
     if authed and nh:
         ctx.nontrivial((case["shell"], tuple(tuple(o) for o in case["ops"])))
         ctx.count("nontrivial")
@@ -357,6 +396,16 @@ CLASSICS = ["../secret", "../../secret", "../rootsib/secret", "../rootsib", ".."
             "../rootsib/new", "../new", "../rootsib/d", "a.txt/../../secret", "\x00", "../\x00", "*", "../*", "../rootsib/*",
             "", "/", ".", "sub", "sub/b.txt", "a.txt", "new", "empty", "sub/deep"]
 PREFIXES = [[], [["CWD", "sub"]], [["CWD", "sub/deep"]]]
+# characters that a normalizer may strip or ignore; "\n" is left out (CR LF would end the command line)
+IGNORABLE = ["\x00", "\x01", "\x07", "\x08", "\t", "\x0b", "\x0c", "\r", "\x1b", "\x1f", "\x7f", " ", "\x85", "\xa0", "\xad"]
+ENUM_IGNORABLE = ["\x00", "\x01", "\t", "\x1f", "\x7f", " "]
+CLIMB_TARGETS = ["rootsib", "rootsib/secret", "rootsib/new", "secret", "new"]
+READ_COMMANDS = ["CWD", "SIZE", "MDTM", "LIST", "NLST", "RETR"]
+
+
+def _disguises(base, chars):
+    """base with one character of `chars` inserted at every position"""
+    return [base[:i] + c + base[i:] for c in chars for i in range(len(base) + 1)]
 COMMANDS = ["CWD", "MKD", "RMD", "DELE", "SIZE", "MDTM", "LIST", "NLST", "RETR", "STOR", "APPE", "RNFR", "RNTO"]
 
 
@@ -385,6 +434,28 @@ def _enum_cases(shell, paths):
                 yield dict(shell=shell, ops=ops)
 
 
+def _one(cmd, path, prefix):
+    if cmd == "RNFR":
+        return prefix + [["RNFR", "/a.txt"], ["RNTO", path]]
+    if cmd == "RNTO":
+        return prefix + [["RNFR", path], ["RNTO", "/new"]]
+    return prefix + [[cmd, path]]
+
+
+def _enum_disguised(shell):
+    """every command x every one-character disguise of '..' x every climb target, from / and from /sub"""
+    for d in _disguises("..", ENUM_IGNORABLE):
+        for target in CLIMB_TARGETS:
+            for cmd in (COMMANDS if shell == "user" else READ_COMMANDS):
+                yield dict(shell=shell, ops=_one(cmd, d + "/" + target, []))
+                yield dict(shell=shell, ops=_one(cmd, "../" + d + "/" + target, [["CWD", "sub"]]))
+
+
+def _enum_dis_shard(ctx, shell):
+    with _tree():
+        enumerate_run(ctx, _enum_disguised(shell), run_case, stop_after_violation=False)
+
+
 def _enum_shard(ctx, arg):
     shell, k, n = arg
     paths = _enum_paths()
@@ -393,11 +464,25 @@ def _enum_shard(ctx, arg):
 
 
 @st.composite
+def _dotseg(draw):
+    """'.' or '..', plain or with 1-2 ignorable characters inserted anywhere"""
+    seg = draw(st.sampled_from(["..", "..", "..", "."]))
+    for _ in range(draw(st.sampled_from([0, 0, 1, 1, 1, 2]))):
+        i = draw(st.integers(0, len(seg)))
+        seg = seg[:i] + draw(st.sampled_from(IGNORABLE)) + seg[i:]
+    return seg
+
+
+@st.composite
 def _path(draw):
-    segs = draw(st.lists(st.sampled_from(SEGS), min_size=0, max_size=6))
+    segs = draw(st.lists(st.one_of(st.sampled_from(SEGS), st.sampled_from(SEGS), st.sampled_from(SEGS), _dotseg()),
+                         min_size=0, max_size=6))
     if draw(st.integers(0, 2)) == 0:
         k = draw(st.integers(1, 4))
-        segs = [".."] * k + segs                       # climbing first
+        climb = [draw(_dotseg()) for _ in range(k)]    # climbing first, plainly or in disguise
+        if draw(st.integers(0, 1)):
+            segs = draw(st.sampled_from(CLIMB_TARGETS + ["root.secret", "rootsib/d/y", "root/a.txt"])).split("/")
+        segs = climb + segs
     lead = draw(st.sampled_from(["", "", "", "/", "/", "//"]))
     trail = draw(st.sampled_from(["", "", "", "/"]))
     return lead + "/".join(segs) + trail
@@ -433,12 +518,18 @@ def run(ctx):
                                      f"(<= 2 segments over {ENUM_SEGS!r}, relative and absolute, + {len(CLASSICS)} classic spellings); "
                                      "anonymous shell: same with the classic spellings only")
     ctx.exhaustive = False
+    ctx.extra["exhaustive_scope"] += (f"; both shells: every command x every one-character disguise of '..' "
+                                      f"({len(_disguises('..', ENUM_IGNORABLE))}: one of {ENUM_IGNORABLE!r} before, inside or after) "
+                                      f"x climb targets {CLIMB_TARGETS!r}, from / and from /sub")
     if ctx.thorough:
         ctx.shards(_enum_shard, [("user", k, 8) for k in range(8)] + [("anon", k, 8) for k in range(8)])
+        ctx.shards(_enum_dis_shard, ["user", "anon"])
     else:
         with _tree():
             enumerate_run(ctx, _enum_cases("user", paths), run_case, stop_after_violation=False)
             enumerate_run(ctx, _enum_cases("anon", CLASSICS), run_case, stop_after_violation=False)
+            enumerate_run(ctx, _enum_disguised("user"), run_case, stop_after_violation=False)
+            enumerate_run(ctx, _enum_disguised("anon"), run_case, stop_after_violation=False)
     if ctx.has_violation():
         return
     if ctx.thorough:
